@@ -421,76 +421,89 @@ Inductive imode :=
 (* end of the deflate stream reached / not *)
 Inductive ifin := FNeed | FErr | FEnd (s : bits).
 
+(* one step of the block loop: either it goes on in a new mode / position / output, or the run is over *)
+Inductive istepres :=
+| SGo (m : imode) (s : bits) (out : list Z)
+| SStop (out : list Z) (r : ifin).
+
+Definition istep (m : imode) (s : bits) (out : list Z) : istepres :=
+  match m with
+  | MHeader =>
+    match read_bits 3 s with
+    | None => SStop out FNeed
+    | Some (h, s1) =>
+      let final := Z.odd h in
+      let ty := h / 2 in
+      if ty =? 0 then
+        (* stored: skip to the byte boundary, LEN, NLEN, LEN bytes *)
+        match bs_rest s1 with
+        | b0 :: b1 :: b2 :: b3 :: bytes =>
+          let len := b0 + 256 * b1 in
+          let nlen := b2 + 256 * b3 in
+          if len + nlen =? 65535 then
+            match take_stored len bytes out with
+            | (bytes', out', true) =>
+              if final then SStop out' (FEnd (mkbits [] bytes'))
+              else SGo MHeader (mkbits [] bytes') out'
+            | (_, out', false) => SStop out' FNeed
+            end
+          else SStop out FErr
+        | _ => SStop out FNeed
+        end
+      else if ty =? 1 then SGo (MData final fixed_lit_tree fixed_dist_tree) s1 out
+      else if ty =? 2 then
+        match read_dyn_tables s1 with
+        | RMore => SStop out FNeed
+        | RBad => SStop out FErr
+        | RGot (lit, dist) s2 => SGo (MData final lit dist) s2 out
+        end
+      else SStop out FErr
+    end
+  | MData final lit dist =>
+    match hdecode lit s with
+    | RMore => SStop out FNeed
+    | RBad => SStop out FErr
+    | RGot sym s1 =>
+      if sym <? 256 then SGo m s1 (sym :: out)
+      else if sym =? 256 then
+        if final then SStop out (FEnd s1) else SGo MHeader s1 out
+      else if sym <? 286 then
+        let i := Z.to_nat (sym - 257) in
+        match read_bits (nth i len_extra 0%nat) s1 with
+        | None => SStop out FNeed
+        | Some (e, s2) =>
+          let len := nth i len_base 0 + e in
+          match hdecode dist s2 with
+          | RMore => SStop out FNeed
+          | RBad => SStop out FErr
+          | RGot dsym s3 =>
+            if dsym <? 30 then
+              let j := Z.to_nat dsym in
+              match read_bits (nth j dist_extra 0%nat) s3 with
+              | None => SStop out FNeed
+              | Some (e2, s4) =>
+                let d := nth j dist_base 0 + e2 in
+                match copy_match len d out with
+                | None => SStop out FErr
+                | Some out' => SGo m s4 out'
+                end
+              end
+            else SStop out FErr
+          end
+        end
+      else SStop out FErr
+    end
+  end.
+
+(* the block loop.  The fuel is proportional to the length of the input (every step of a well-formed stream consumes at least one bit); should
+   it run out all the same, the run is undecided (more input brings more fuel) - it is not an error of the stream *)
 Fixpoint inflate_run (fuel : nat) (m : imode) (s : bits) (out : list Z) : list Z * ifin :=
   match fuel with
-  | O => (out, FErr)
+  | O => (out, FNeed)
   | S f =>
-    match m with
-    | MHeader =>
-      match read_bits 3 s with
-      | None => (out, FNeed)
-      | Some (h, s1) =>
-        let final := Z.odd h in
-        let ty := h / 2 in
-        if ty =? 0 then
-          (* stored: skip to the byte boundary, LEN, NLEN, LEN bytes *)
-          match bs_rest s1 with
-          | b0 :: b1 :: b2 :: b3 :: bytes =>
-            let len := b0 + 256 * b1 in
-            let nlen := b2 + 256 * b3 in
-            if len + nlen =? 65535 then
-              match take_stored len bytes out with
-              | (bytes', out', true) =>
-                if final then (out', FEnd (mkbits [] bytes'))
-                else inflate_run f MHeader (mkbits [] bytes') out'
-              | (_, out', false) => (out', FNeed)
-              end
-            else (out, FErr)
-          | _ => (out, FNeed)
-          end
-        else if ty =? 1 then inflate_run f (MData final fixed_lit_tree fixed_dist_tree) s1 out
-        else if ty =? 2 then
-          match read_dyn_tables s1 with
-          | RMore => (out, FNeed)
-          | RBad => (out, FErr)
-          | RGot (lit, dist) s2 => inflate_run f (MData final lit dist) s2 out
-          end
-        else (out, FErr)
-      end
-    | MData final lit dist =>
-      match hdecode lit s with
-      | RMore => (out, FNeed)
-      | RBad => (out, FErr)
-      | RGot sym s1 =>
-        if sym <? 256 then inflate_run f m s1 (sym :: out)
-        else if sym =? 256 then
-          if final then (out, FEnd s1) else inflate_run f MHeader s1 out
-        else if sym <? 286 then
-          let i := Z.to_nat (sym - 257) in
-          match read_bits (nth i len_extra 0%nat) s1 with
-          | None => (out, FNeed)
-          | Some (e, s2) =>
-            let len := nth i len_base 0 + e in
-            match hdecode dist s2 with
-            | RMore => (out, FNeed)
-            | RBad => (out, FErr)
-            | RGot dsym s3 =>
-              if dsym <? 30 then
-                let j := Z.to_nat dsym in
-                match read_bits (nth j dist_extra 0%nat) s3 with
-                | None => (out, FNeed)
-                | Some (e2, s4) =>
-                  let d := nth j dist_base 0 + e2 in
-                  match copy_match len d out with
-                  | None => (out, FErr)
-                  | Some out' => inflate_run f m s4 out'
-                  end
-                end
-              else (out, FErr)
-            end
-          end
-        else (out, FErr)
-      end
+    match istep m s out with
+    | SGo m' s' out' => inflate_run f m' s' out'
+    | SStop out' r => (out', r)
     end
   end.
 
